@@ -553,6 +553,9 @@ def replay_problems(sp, model, impl, replays, initial_files=None, stats=None, cr
     if "net" in replays:
         p, i = rp.net_problems(sp, model, impl, completed)
         problems += p; stats.update(i)
+    if "port" in replays:
+        p, i = rp.port_problems(sp, model, impl, completed)
+        problems += p; stats.update(i)
     return problems
 
 
